@@ -37,6 +37,20 @@ def _set_exact(flag):
     return FunctionalAssignment
 
 
+def _timed(fn):
+    import time
+
+    def w(task):
+        t0 = time.time()
+        r = fn(task)
+        if isinstance(r, dict):
+            r["secs"] = time.time() - t0
+        return r
+    w.__name__ = fn.__name__
+    return w
+
+
+@_timed
 def task_func_moment(task):
     """get_func_moment(dist, powers) on a fresh distribution object"""
     FA = _set_exact(task.get("exact", True))
@@ -66,6 +80,7 @@ def task_func_const(task):
     return res
 
 
+@_timed
 def task_func_program(task):
     """closed forms of the goals of a program text, evaluated at n = 0..nmax"""
     _set_exact(task.get("exact", True))
